@@ -128,6 +128,7 @@ type mirror struct {
 	closed  bool
 	cache   kcache.CacheReader // optional: C05 cache clause
 	maxSeen map[string]int     // newest version received per key since its last delete
+	nread   int
 	cerrs   []string
 	ready   <-chan struct{}
 	preRdy  int // events received before Ready() closed
@@ -162,8 +163,22 @@ func (m *mirror) apply(e kcache.Event) {
 	rv := o.GetResourceVersion()
 	var cached metav1.Object
 	var cerr error
-	if m.cache != nil && e.Type() != kcache.EventTypeDelete {
-		cached, cerr = m.cache.Get(o.GetNamespace(), o.GetName())
+	via := "Get"
+	if m.cache != nil {
+		// the consumer reads its cache on every event, alternately through Get and List
+		m.nread++
+		if m.nread%2 == 0 {
+			cached, cerr = m.cache.Get(o.GetNamespace(), o.GetName())
+		} else {
+			via = "List"
+			var l []metav1.Object
+			l, cerr = m.cache.List()
+			for _, x := range l {
+				if kit.Key(x) == k {
+					cached = x
+				}
+			}
+		}
 	}
 	m.mu.Lock()
 	defer m.mu.Unlock()
@@ -175,13 +190,20 @@ func (m *mirror) apply(e kcache.Event) {
 		m.maxSeen = map[string]int{}
 	}
 	if e.Type() == kcache.EventTypeDelete {
+		// after the delete of an object last received at version V, the cache may hold
+		// the key again only in a NEWER incarnation
+		if prev, ok := m.maxSeen[k]; ok && m.cache != nil && cerr == nil && cached != nil && kit.Atoi(cached.GetResourceVersion()) <= prev && len(m.cerrs) < 5 {
+			m.cerrs = append(m.cerrs, fmt.Sprintf("%s: on receiving delete %s the cache (%s) still returned %s@%s although version %d of that object had been received before the delete", m.name, k, via, k, cached.GetResourceVersion(), prev))
+		}
 		delete(m.maxSeen, k)
-	} else if v := kit.Atoi(rv); v > m.maxSeen[k] {
-		m.maxSeen[k] = v
-	}
-	if m.cache != nil && cerr == nil && cached != nil {
-		if kit.Atoi(cached.GetResourceVersion()) < m.maxSeen[k] && len(m.cerrs) < 5 {
-			m.cerrs = append(m.cerrs, fmt.Sprintf("%s: on receiving %s %s@%s the cache returned version %s although version %d of that object had already been received", m.name, e.Type(), k, rv, cached.GetResourceVersion(), m.maxSeen[k]))
+	} else {
+		if v := kit.Atoi(rv); v > m.maxSeen[k] {
+			m.maxSeen[k] = v
+		}
+		if m.cache != nil && cerr == nil && cached != nil {
+			if kit.Atoi(cached.GetResourceVersion()) < m.maxSeen[k] && len(m.cerrs) < 5 {
+				m.cerrs = append(m.cerrs, fmt.Sprintf("%s: on receiving %s %s@%s the cache (%s) returned version %s although version %d of that object had already been received", m.name, e.Type(), k, rv, via, cached.GetResourceVersion(), m.maxSeen[k]))
+			}
 		}
 	}
 	if !m.seeded {
